@@ -81,16 +81,24 @@ def run(tier):
                                  "msg": "config %s: %s deviates from the specification" % (json.dumps(cfg), d["kind"]),
                                  "behaviour": json.dumps({"trace_line": d["line"], "config": cfg})})
         c.coverage["traces_validated_against_impl"] += len(jobs)
-        # malformed rows are reported, not silently misread
+        # malformed rows are reported, not silently misread (the catalogue is Dat.tla's Malformed)
         bad = 0
-        for dim, fields in ((2, ["1", "2"]), (2, ["1", "2", "3", "4"]), (3, ["1", "2", "3"]), (3, ["1", "2", "3", "4", "5"])):
+        mal = json.loads(r.records.get("X", ["[]"])[-1])
+        if len(mal) < 8: raise tlc.SetupError("Dat.tla did not emit its malformed-row catalogue")
+        wb2 = next(os.path.join(tmp, "w%d.wb" % k) for k, j in enumerate(jobs) if j["config"]["dim"] == 2 and not j["config"]["wsph"])
+        wb3 = next(os.path.join(tmp, "w%d.wb" % k) for k, j in enumerate(jobs) if j["config"]["dim"] == 3 and not j["config"]["wsph"] and not j["config"]["conv"])
+        for mr in mal:
+            dim, fields = mr["dim"], mr["fields"]
             dat = os.path.join(tmp, "bad.dat")
-            open(dat, "w").write("# dim = %d\n# compositions = 0\n%s\n" % (dim, " ".join(["100e3", "400e3", "50e3", "50e3"][:dim + 1])) + " ".join(fields) + "\n")
-            pr = subprocess.run([exes["gwb-dat"], os.path.join(tmp, "w0.wb") if dim == jobs[0]["config"]["dim"] else wb, dat], stdout=subprocess.PIPE, stderr=subprocess.PIPE, text=True, timeout=120)
+            good = " ".join(["100e3", "400e3", "950e3", "50e3"][:dim] + ["50e3"]) if dim == 3 else "100e3 950e3 50e3"
+            open(dat, "w").write("# dim = %d\n# compositions = 0\n%s\n" % (dim, good) + " ".join(fields) + "\n")
+            pr = subprocess.run([exes["gwb-dat"], wb2 if dim == 2 else wb3, dat], stdout=subprocess.PIPE, stderr=subprocess.PIPE, text=True, timeout=120)
             bad += 1
-            if pr.returncode == 0 or "line 4" not in (pr.stderr + pr.stdout):
-                c.mismatches.append({"id": "dat-malformed", "labels": ["dat-malformed"], "check": "malformed-row", "op": "gwb-dat", "got": "rc=%d" % pr.returncode,
-                                     "msg": "a row with %d fields in a dim=%d file is not reported (exit %d): %s" % (len(fields), dim, pr.returncode, (pr.stderr + pr.stdout)[-300:]),
+            out = pr.stderr + pr.stdout
+            named = ("line 4" in out) if mr["bad"] == "" else (mr["bad"] in pr.stderr or ("line 4" in out))
+            if pr.returncode == 0 or not named:
+                c.mismatches.append({"id": "dat-malformed", "labels": ["dat-malformed", "bad-field" if mr["bad"] else "field-count"], "check": "malformed-row", "op": "gwb-dat", "got": "rc=%d" % pr.returncode,
+                                     "msg": "the row %s in a dim=%d file is not reported (exit %d): %s" % (json.dumps(fields), dim, pr.returncode, out[-300:]),
                                      "behaviour": json.dumps({"dat": open(dat).read()})})
         c.coverage["evaluations"] += len(jobs) + bad + cells
         c.coverage["distinct_nontrivial"] = len(jobs)
@@ -100,7 +108,7 @@ def run(tier):
         c.coverage["rule"] = ("every .dat configuration dim {2,3} x compositions 0..3 x grain compositions 0..2 x grains 0..3 x convert spherical x "
                               "comma/space separated x lengths written as metres or as \"<km>e3\" x option lines {all before the rows, all after the last row, spread between blocks of rows}, each run through the real gwb-dat on a world with distinguishable values in every slot; the "
                               "printed table is validated by TLC against the specified header / row shape and every cell compared with what the "
-                              "library returns for that row in-process; plus four malformed-row files. non-trivial: all configurations")
+                              "library returns for that row in-process; plus twelve malformed-row files (wrong field counts; fields that only start with a number). non-trivial: all configurations")
         c.assumptions += ["a cell matches if it is what operator<< prints for the library value (%g, 6 significant digits)"]
     finally:
         shutil.rmtree(tmp, ignore_errors=True)
